@@ -247,6 +247,12 @@ def check(case, obs):
         return
     if not obs.claim('duration', not raised(at), lambda: 'acquisition_time raised %r' % (at,)):
         return
+    # asking for the duration is a question, not an edit: the start and end times still answer what they answered
+    for nm, x in (('start', c['btim']), ('end', c['etim'])):
+        got2 = call(lambda: getattr(d, 'acquisition_%s_time' % nm))
+        e2 = expect_time(x)
+        same = (not raised(got2)) and ((got2 is None and e2 is None) or (got2 is not None and e2 is not None and type(got2) is type(e2) and got2 == e2))
+        obs.claim('times', same, lambda: 'acquisition_%s_time after acquisition_time was read: %r, keywords say %r' % (nm, got2, e2))
     step = d.time_step
     tcol = [i for i, n in enumerate(c['names']) if n.lower() == 'time']
     e_start, e_end = expect_time(c['btim']), expect_time(c['etim'])
